@@ -834,7 +834,14 @@ func runSeq(p Profile, seed uint64, cas int) *SeqRes {
 		s.exhaustInodes()
 	}
 	if p.HighBlocks {
-		s.advanceAllocator()
+		if p.DeleteAll {
+			s.advanceAllocator(250)
+		} else {
+			s.advanceAllocator(-80) // just beyond the border: live data on both sides
+		}
+	}
+	if p.HighBlocks && p.DeleteAll {
+		s.shrinkBoundarySweep()
 	}
 	if p.ManyBigFrees {
 		s.manyBigFrees()
@@ -949,15 +956,22 @@ func (s *Sess) prepopulate(n int) {
 // block bitmap describes (blocks < 32768) with one live file, so that
 // everything the sequence allocates afterwards - before and after restarts -
 // lives in the part described by the second bitmap block.
-func (s *Sess) advanceAllocator() {
+func (s *Sess) advanceAllocator(leave int) {
 	r := s.exec(&Op{K: OpCreate, H: s.srv.Root, Name: "lowfill"})
 	if r.Stat != stOK {
 		return
 	}
 	st := s.srv.N.VerifFsState()
 	total := 0
-	need := 32768 + 40 - int(st.Super.DataStart()) - 2*len(s.m.LiveObjs()) // data + index blocks below block 32768 that are still free (roughly)
-	for k := 0; k < 600 && total+total/512+70 < need; k++ {
+	// blocks in use so far (they are contiguous from block 0: next-fit and
+	// nothing has been freed); if the allocator's own count is implausible
+	// fall back to an estimate
+	used0 := int(uint64(st.Super.MaxBnum()) - st.Balloc.NumFree())
+	if used0 < int(st.Super.DataStart()) || used0 > int(st.Super.DataStart())+3000 {
+		used0 = int(st.Super.DataStart()) + 30 + len(s.m.LiveObjs())
+	}
+	// stop leave blocks below block 32768 (negative: beyond it)
+	for k := 0; k < 600 && used0+total+total/512+2+64+1 <= 32768-leave; k++ {
 		s.nextUid++
 		n := uint32(64 * BlockSize)
 		w := s.exec(&Op{K: OpWrite, H: r.FH, Off: uint64(k) * uint64(n), Count: n, DataLen: n, Uid: s.nextUid, Stable: 0})
@@ -968,6 +982,52 @@ func (s *Sess) advanceAllocator() {
 	}
 	s.exec(&Op{K: OpCommit, H: r.FH})
 	s.res.Stats.Add(fmt.Sprintf("low-32768-blocks-filled-with/%d", total/1000*1000))
+}
+
+// shrinkBoundarySweep (after advanceAllocator): files that consist of k
+// blocks in the double-indirect range only, for every k around the number of
+// blocks one shrink transaction can free, are removed one by one; their blocks
+// straddle the border between the two blocks of the block bitmap (a restart
+// before each makes the allocator start at the same place again).  The
+// background free must neither overflow its transaction nor lose a block.
+func (s *Sess) shrinkBoundarySweep() {
+	root := s.srv.Root
+	st := s.srv.N.VerifFsState()
+	s.srv.WaitIdle()
+	free0 := st.Balloc.NumFree()
+	for k := 498; k <= 514 && !s.stop; k++ {
+		s.restart()
+		st = s.srv.N.VerifFsState()
+		r := s.exec(&Op{K: OpCreate, H: root, Name: "victim"})
+		if r.Stat != stOK {
+			return
+		}
+		base := uint64(8+512) * BlockSize
+		for done := 0; done < k; {
+			n := minInt(k-done, 200)
+			s.nextUid++
+			w := s.exec(&Op{K: OpWrite, H: r.FH, Off: base + uint64(done)*BlockSize, Count: uint32(n * BlockSize), DataLen: uint32(n * BlockSize), Uid: s.nextUid, Stable: 0})
+			if w.Stat != stOK {
+				return
+			}
+			done += n
+		}
+		if debugOn {
+			st2 := s.srv.N.VerifFsState()
+			fmt.Println("DEBUG victim k", k, "free", st2.Balloc.NumFree(), "of", st2.Super.MaxBnum(), "datastart", st2.Super.DataStart())
+		}
+		if k%2 == 0 {
+			s.exec(&Op{K: OpRemove, H: root, Name: "victim"})
+		} else {
+			s.exec(&Op{K: OpSetattr, H: r.FH, SetSize: true, Size: 0})
+			s.exec(&Op{K: OpRemove, H: root, Name: "victim"})
+		}
+		s.srv.WaitIdle()
+		if f := st.Balloc.NumFree(); f != free0 {
+			s.viol("leak", "file of %d blocks in the double-indirect range, created and removed across the bitmap-block border: %d blocks free before, %d after", k, free0, f)
+		}
+	}
+	s.res.Stats.Add("shrink-transaction-boundary-sweep")
 }
 
 // manyBigFrees: several files that are too big to be freed inside the
